@@ -5,7 +5,7 @@ import re
 import subprocess
 from concurrent.futures import ThreadPoolExecutor
 
-from common import CACHE, REPO, VERIF, ensure_oracle, log, run_harness, run_tlc, tool_error
+from common import nl_lines, CACHE, REPO, VERIF, ensure_oracle, log, run_harness, run_tlc, tool_error
 
 BATCH = 2500
 
@@ -118,8 +118,8 @@ def l3_run(chk, name, driver="mixed", strings=600, per_string=4, kinds=None, pro
     if profiles:
         args += ["--profiles", ",".join(profiles)]
     out, t_h = run_harness(args)
-    info = json.loads(out.strip().splitlines()[-1])
-    lines = open(trace).read().splitlines()
+    info = json.loads(nl_lines(out)[-1])
+    lines = nl_lines(open(trace).read())
     os.remove(trace)
     os.remove(corpus)
     batches = []
@@ -216,8 +216,8 @@ def session_run(chk, processes=6, threads=8, calls=40):
         # the same seed for groups of three processes: the same inputs under different schedules
         out, _ = run_harness(["session", "--oracle", oracle, "--out", trace, "--seed", str(chk.seed * 100 + i // 3), "--threads", str(threads),
                               "--calls", str(calls), "--corpus", corpus, "--thread-base", str(i * 100)])
-        infos.append(json.loads(out.strip().splitlines()[-1]))
-        lines += open(trace).read().splitlines()
+        infos.append(json.loads(nl_lines(out)[-1]))
+        lines += nl_lines(open(trace).read())
         os.remove(trace)
     os.remove(corpus)
     batches = []
@@ -294,8 +294,8 @@ def csv_trace_run(chk, rows=20000):
     trace = os.path.join(CACHE, "csv-%s.ndjson" % tag)
     out, t = run_harness(["csvfuzz", "--seed", str(chk.seed), "--rows", str(rows), "--out", trace,
                           "--registry", os.path.join(VERIF, "data", "csv", "precis-tables-6.3.0.csv")])
-    summary = json.loads(out.strip().splitlines()[-1])["summary"]
-    lines = open(trace).read().splitlines()
+    summary = json.loads(nl_lines(out)[-1])["summary"]
+    lines = nl_lines(open(trace).read())
     os.remove(trace)
     B = 10000
     batches = []
